@@ -91,9 +91,10 @@ def check_mesh(m, cls, faces, form, L=None):
         i = np.unravel_index(np.argmax(rel), rel.shape)
         bad.append((mech, 'cellvolume%r = %.17g, exact %.17g (rel %.3g)' % (tuple(int(j) for j in i), V[i], Vex[i], rel[i])))
     tot = g.domain_volume()
-    if abs(Vex.sum() - tot) > 1e-11 * tot:   # oracle self-consistency (never the code's fault)
+    geo_tol = 1e-11 + 16 * np.finfo(float).eps * g.cond()       # differences of large face positions (far-off / very thin cells)
+    if abs(Vex.sum() - tot) > geo_tol * tot:   # oracle self-consistency (never the code's fault)
         raise AssertionError('oracle volumes do not sum to the domain volume')
-    if abs(V.sum() - tot) > 1e-11 * tot and not any(b[0] in (KEY_SPH3D, 'cellvolume-percell') for b in bad):
+    if abs(V.sum() - tot) > geo_tol * tot and not any(b[0] in (KEY_SPH3D, 'cellvolume-percell') for b in bad):
         bad.append(('cellvolume-total', 'sum(cellvolume)=%.17g domain volume %.17g' % (V.sum(), tot)))
     # labels on the three coordinate containers
     for name in ('cellcenters', 'facecenters', 'cellsize'):
